@@ -110,20 +110,15 @@ pub struct C12NonblockingHandsBack;
 pub struct C15SessionConsumedByFinish;
 
 /// C15-L3: the internal switches of `SessionParams` cannot be set from outside the crate: only
-/// `Nomt::rollback` can create a session without the global read guard.
+/// `Nomt::rollback` can create a session without the global read guard.  One witness per switch, each with an alternative
+/// form for a tree in which that switch is no longer a field of this name (a private enum, say): the name then does not
+/// exist at all for an outside user (E0609).  `rules/witness.py` accepts a witness when it or one of its `__alt` forms
+/// fails to compile as stated.
 /// ```compile_fail,E0616
 /// use nomt::SessionParams;
 /// fn no_guard() -> SessionParams {
 ///     let mut p = SessionParams::default();
 ///     p.take_global_guard = false;
-///     p
-/// }
-/// ```
-/// ```compile_fail,E0616
-/// use nomt::SessionParams;
-/// fn no_delta() -> SessionParams {
-///     let mut p = SessionParams::default();
-///     p.record_rollback_delta = false;
 ///     p
 /// }
 /// ```
@@ -137,9 +132,6 @@ pub struct C15SessionConsumedByFinish;
 /// ```
 pub struct C15SessionParamsSwitchesPrivate;
 
-/// C15-L3, alternative form of the witness above for a tree in which the switches are no longer two boolean fields (for
-/// example one private enum): the field names then do not exist at all for an outside user (E0609).  `rules/witness.py`
-/// accepts a witness when it or one of its `__alt` forms fails to compile as stated.
 /// ```compile_fail,E0609
 /// use nomt::SessionParams;
 /// fn no_guard() -> SessionParams {
@@ -148,6 +140,19 @@ pub struct C15SessionParamsSwitchesPrivate;
 ///     p
 /// }
 /// ```
+pub struct C15SessionParamsSwitchesPrivate__alt1;
+
+/// C15-L3, the second switch.
+/// ```compile_fail,E0616
+/// use nomt::SessionParams;
+/// fn no_delta() -> SessionParams {
+///     let mut p = SessionParams::default();
+///     p.record_rollback_delta = false;
+///     p
+/// }
+/// ```
+pub struct C15SessionParamsDeltaSwitchPrivate;
+
 /// ```compile_fail,E0609
 /// use nomt::SessionParams;
 /// fn no_delta() -> SessionParams {
@@ -156,7 +161,7 @@ pub struct C15SessionParamsSwitchesPrivate;
 ///     p
 /// }
 /// ```
-pub struct C15SessionParamsSwitchesPrivate__alt1;
+pub struct C15SessionParamsDeltaSwitchPrivate__alt1;
 
 /// C15: sessions can be shared between reader threads (compiling witness).
 /// ```
